@@ -63,6 +63,7 @@ def make(ident, present=True, resp_filter=None, stamp=0):
     simenv.new_world()
     bus = simenv.SimBus("inline")
     bus.stamp = STAMPS[stamp % len(STAMPS)]
+    bus.reuse_rx = bool(stamp % 2)       # ... and may re-use its receive buffer
     net = canopen.Network()
     bus.attach(net, "master")
     slave = LssSlave(ident, present=present)
